@@ -447,6 +447,14 @@ func (env *SpecEnv) evalCall(e *SExpr) Val {
 			env.fail(e, "no map range loop %d seen yet", ord)
 		}
 		return Val{T: app("select", fc.heapGet(env.st(), key, srt), arg(1).T), Ty: tBool}
+	case "cs": // cs(e): value of e when the last critical section began (right after Lock)
+		snap := env.cur.csSnap
+		if snap == nil {
+			env.fail(e, "cs(): no critical section was entered on this path")
+		}
+		n := *env
+		n.cur, n.inOld = snap, false
+		return n.eval(e.Args[0])
 	case "panicking":
 		return Val{T: orTrue(env.st().panick), Ty: tBool}
 	}
@@ -455,7 +463,13 @@ func (env *SpecEnv) evalCall(e *SExpr) Val {
 		if len(e.Args) != 1 {
 			env.fail(e, "conversion takes one argument")
 		}
-		return fc.convert(arg(0), t, token.NoPos)
+		a := arg(0)
+		if _, fromIface := a.Ty.Underlying().(*types.Interface); fromIface {
+			if _, toIface := t.Underlying().(*types.Interface); !toIface {
+				return fc.unbox(a, t) // spec-level type assertion x.(T)
+			}
+		}
+		return fc.convert(a, t, token.NoPos)
 	}
 	// pure / opaque spec function
 	if pf, home := env.findPure(name); pf != nil {
